@@ -5,7 +5,7 @@ import os
 import re
 
 V = "/verif"
-rows = ["| seed | change (agent's title) | patched file | needs, in short | caught by (finding keys) |", "|---|---|---|---|---|"]
+rows = ["| seed | change (agent's title) | patched file | needs, in short | first run | caught now by (finding keys) |", "|---|---|---|---|---|---|"]
 n = det = 0
 for d in sorted(os.listdir(V + "/seeded")):
     mp = os.path.join(V, "seeded", d, "meta.json")
@@ -19,7 +19,9 @@ for d in sorted(os.listdir(V + "/seeded")):
     needs = m["what_it_needs_to_manifest"]
     needs = re.sub(r"[*`|]", "", needs)
     needs = (needs[:170] + "…") if len(needs) > 170 else needs
-    rows.append("| %s | %s | %s | %s | %s |" % (d, title.replace("|", "/"), ", ".join(m["patch_files"]), needs, "<br>".join("`%s`" % k for k in keys) if keys else "**MISSED**"))
+    fr = m.get("first_run", {}).get("result", "")
+    fr = fr if fr in ("missed", "detected") else "r1"
+    rows.append("| %s | %s | %s | %s | %s | %s |" % (d, title.replace("|", "/"), ", ".join(m["patch_files"]), needs, fr, "<br>".join("`%s`" % k for k in keys) if keys else "**MISSED**"))
 rows.append("")
 rows.append("%d kept seeds, %d detected by at least one check (exit 1 with a VIOLATION line naming the instance)." % (n, det))
 table = "\n".join(rows)
